@@ -1,0 +1,1 @@
+//! Verification hooks: heap layout (cargo feature `mmtk_verif`; add-only wrappers).
